@@ -616,7 +616,20 @@ func ConvertTypedValueToYANGType(schemaElem *sdcpb.SchemaElem, tv *sdcpb.TypedVa
 	case schemaElem.GetLeaflist() != nil:
 		switch tv.Value.(type) {
 		case *sdcpb.TypedValue_LeaflistVal:
-			return tv, nil
+			// the elements need to carry the type of the leaf-list as well
+			elemSchema := &sdcpb.SchemaElem{Schema: &sdcpb.SchemaElem_Field{Field: &sdcpb.LeafSchema{Type: schemaElem.GetLeaflist().GetType()}}}
+			elems := make([]*sdcpb.TypedValue, 0, len(tv.GetLeaflistVal().GetElement()))
+			for _, e := range tv.GetLeaflistVal().GetElement() {
+				ce, err := ConvertTypedValueToYANGType(elemSchema, e)
+				if err != nil {
+					return nil, err
+				}
+				elems = append(elems, ce)
+			}
+			return &sdcpb.TypedValue{
+				Timestamp: tv.GetTimestamp(),
+				Value:     &sdcpb.TypedValue_LeaflistVal{LeaflistVal: &sdcpb.ScalarArray{Element: elems}},
+			}, nil
 		}
 		return &sdcpb.TypedValue{
 			Timestamp: tv.GetTimestamp(),
